@@ -42,11 +42,13 @@ err_t beltKWPWrap(octet dest[], const octet src[], size_t count,
 		return ERR_OUTOFMEMORY;
 	// установить защиту
 	beltKWPStart(state, key, len);
-	memMove(dest, src, count);
 	if (header)
 		memJoin(dest, src, count, header, 16);
 	else
+	{
+		memMove(dest, src, count);
 		memSetZero(dest + count, 16);
+	}
 	beltKWPStepE(dest, count + 16, state);
 	// завершить
 	blobClose(state);
@@ -58,6 +60,7 @@ err_t beltKWPUnwrap(octet dest[], const octet src[], size_t count,
 {
 	void* state;
 	octet* header2;
+	octet* header1;
 	// проверить входные данные
 	if (count < 32 ||
 		len != 16 && len != 24 && len != 32 ||
@@ -67,16 +70,20 @@ err_t beltKWPUnwrap(octet dest[], const octet src[], size_t count,
 		!memIsValid(dest, count - 16))
 		return ERR_BAD_INPUT;
 	// создать состояние
-	state = blobCreate(beltKWP_keep() + 16);
+	state = blobCreate(beltKWP_keep() + 32);
 	if (state == 0)
 		return ERR_OUTOFMEMORY;
 	header2 = (octet*)state + beltKWP_keep();
+	header1 = header2 + 16;
+	// сохранить header (может пересекаться с dest)
+	if (header)
+		memCopy(header1, header, 16);
 	// снять защиту
 	beltKWPStart(state, key, len);
 	memCopy(header2, src + count - 16, 16);
 	memMove(dest, src, count - 16);
 	beltKWPStepD2(dest, header2, count, state);
-	if (header && !memEq(header, header2, 16) ||
+	if (header && !memEq(header1, header2, 16) ||
 		header == 0 && !memIsZero(header2, 16))
 	{
 		memSetZero(dest, count - 16);
